@@ -672,3 +672,34 @@ Proof.
   apply scansE_app; [unitZ Z_m22_scans command Hc|].
   unitZ Z_m23_scans command Hc.
 Qed.
+
+(** ** C07 on the whole script: the literal list and every description of the completion function read
+    back to the texts of the tables *)
+Lemma zsh_script_constants command sig start nd a groups s :
+  name_ok command -> no_nl sig = true ->
+  Forall (fun c => body_okG Zsh c) (a_commands a) ->
+  EmitZsh.script command sig start nd a groups = Ok s ->
+  In (SLits "literals" (map (fun l : N * string * string => snd (fst l)) (t_literals (a_main a)))) (read_stmts Zsh command s)
+  /\ forall k d, In (k, d) (number_from 0 (descr_set (t_literals (a_main a)))) ->
+                 In (SStr "descriptions" k d) (read_stmts Zsh command s).
+Proof.
+  intros Hc Hsig Hb H. destruct (zsh_script_read _ _ _ _ _ _ _ Hc Hsig Hb H) as [sts [Hs ->]].
+  unfold zscript_stmts in Hs.
+  apply obind_ok' in Hs. destruct Hs as [gs [_ Hs]]. apply obind_ok' in Hs. destruct Hs as [rows [_ Hs]].
+  assert (E : forall X Y, Ok X = Ok Y :> res (list stmt) -> X = Y) by (intros X Y HH; congruence).
+  apply E in Hs. subst sts. clear E.
+  assert (Hin : forall x, In x (zlits_stmts EmptyString (t_literals (a_main a))) -> In x
+            ([SRegister [command]] ++ zcmd_fns_stmts command (number_from 0 (a_commands a)) ++ gs ++
+             (if n_top_compadd nd || n_sub_compadd nd then [SLits "matches" []; SEnd] else []) ++
+             (if n_subwords nd then zsub_fn_stmts command else []) ++
+             [SFunc ("_" ++ command)%string] ++ zlits_stmts EmptyString (t_literals (a_main a)) ++
+             zmatch_stmts EmptyString (a_main a) ++ (if n_subwords nd then zsubtrans_stmts rows else []) ++
+             [SScalar "state" (start + Z.st); SScalar "word_index" 2] ++ zcompletion_stmts EmptyString (a_main a) ++
+             (if n_subwords nd then zlevel_stmts "subword_transitions_level_" (a_csub a) else []) ++
+             [SEnd] ++ [SRegister [("_" ++ command)%string; command]])).
+  { intros x Hx. do 6 (apply in_or_app; right). apply in_or_app. left. exact Hx. }
+  split.
+  - apply Hin. left. reflexivity.
+  - intros k d Hkd. apply Hin. right. right. apply in_or_app. left.
+    apply (in_map (fun id : N * string => SStr "descriptions" (fst id) (snd id)) _ (k, d) Hkd).
+Qed.
